@@ -1,5 +1,39 @@
-"""C19 — device and channel descriptions are read-only apart from enable and divider."""
+"""C19 — device and channel descriptions are read-only apart from enable and divider.
+
+Case lines (one record, one HISTORY of things done with it; the whole `__dict__` is dumped after construction
+and after every step, by the real code and by the Lean driver `rec seq …`):
+
+    rec seq chan <route> <chan>,<_type>,<vdim>,<name>,<en>,<div>,<mlen> <steps>
+    rec seq dev  <route> <chmax>,<flags>,<rxpadding> <steps>
+
+<route> = how the application got hold of the real record:
+    direct    DDeviceChannelData(...) / DDeviceData(...)
+    devchan   DeviceChannel(...).data
+    device    Device(n, flags, rxpadding, [DeviceChannel…]).channel_get(j).data  /  Device(...).data
+    decoded   Parser().frame_chinfo_decode(<chinfo frame built by hand>, chan).data
+    session   NxscopeHandler connected (virtual time) to the harness's reference device:
+              nx.dev_channel_get(j).data / nx.dev.data
+values: N | T | F | i<decimal> | s<hex utf-8> | o<truthy>.<index into OTHERS>   (see tok / val)
+steps (`;`-separated, `-` none):  <name>=<value> | <name>=cur (assign the CURRENT value) |
+    !<name>=<value> (the LIBRARY assigns: Device.en_channels_update / div_channels_update, or ch_enable/ch_divider +
+    channels_write on the connected handler) | @copy | @deepcopy | @pickle | @pickle2 | @replace (go on with the copy)
+
+The oracle judges the raw observations (exception, `__dict__` items by identity) of its own run of the real code; it
+knows nothing of the model: a step assigning en / div of a channel record must not raise, must store the very object
+given and change nothing else; every other assignment must raise TypeError and leave every item of `__dict__` the
+identical object; derived attributes of a constructed record follow the type byte.
+
+Outside the property (it speaks of ASSIGNING to a field): `del rec._initdone` unseals a record (the classes have no
+`__delattr__`; the marker then falls back to the class default False), as do `rec.__dict__[...] = …`,
+`object.__setattr__(rec, …)` and `setattr(rec, S("chan"), v)` with S a `str` subclass whose `__eq__` lies
+(defeats `name not in ["div", "en"]`).  None of these is generated.
+"""
+import copy
 import dataclasses
+import fractions
+import pickle
+import re
+
 from common import Prop, exc_name
 
 
@@ -8,82 +42,644 @@ def _dev():
     return dev
 
 
-def b2i(v):
-    return int(v) if isinstance(v, bool) else v
+# ---------------------------------------------------------------------------------------------------------------
+# values
+# ---------------------------------------------------------------------------------------------------------------
+
+class EqTrue:
+    """equal to everything, hash collides with 1"""
+    _c19tag = 19
+
+    def __eq__(self, other):
+        return True
+
+    def __ne__(self, other):
+        return False
+
+    def __hash__(self):
+        return hash(1)
+
+
+class EqRaises:
+    """comparing or hashing it raises"""
+    _c19tag = 20
+
+    def __eq__(self, other):
+        raise RuntimeError("hostile __eq__")
+
+    def __ne__(self, other):
+        raise RuntimeError("hostile __ne__")
+
+    def __hash__(self):
+        raise RuntimeError("hostile __hash__")
+
+
+class BoolRaises:
+    """truth-testing it raises"""
+    _c19tag = 21
+
+    def __bool__(self):
+        raise RuntimeError("hostile __bool__")
+
+
+class IntSub(int):
+    """an int subclass (== 1, hash 1, not `type() is int`)"""
+    _c19tag = 22
+
+
+class StrSub(str):
+    _c19tag = 23
+
+
+class Falsy:
+    _c19tag = 24
+
+    def __bool__(self):
+        return False
+
+    def __eq__(self, other):
+        return other is None or other is False or other == 0
+
+    __hash__ = None
+
+
+# index -> (factory, truthy).  The index is part of the line protocol: append only.
+OTHERS = [
+    (lambda: 1.0, 1), (lambda: 0.0, 0), (lambda: 1.5, 1), (lambda: 3.0, 1), (lambda: float("nan"), 1),
+    (lambda: float("inf"), 1), (lambda: -0.0, 0), (lambda: b"", 0), (lambda: b"ab", 1), (lambda: bytearray(b"x"), 1),
+    (lambda: (), 0), (lambda: (1, 2), 1), (lambda: [], 0), (lambda: [1], 1), (lambda: {}, 0), (lambda: {"en": 1}, 1),
+    (lambda: frozenset(), 0), (lambda: 1 + 0j, 1), (lambda: fractions.Fraction(1, 1), 1),
+    (EqTrue, 1), (EqRaises, 1), (BoolRaises, 1), (lambda: IntSub(1), 1), (lambda: StrSub("en"), 1), (Falsy, 0),
+    (lambda: int, 1), (lambda: range(3), 1), (lambda: 7.0, 1), (lambda: 255.0, 1), (lambda: 2.0, 1), (lambda: 18.0, 1),
+]
+_PLAIN_KEY = {}
+for _i, (_f, _t) in enumerate(OTHERS):
+    _o = _f()
+    if not hasattr(type(_o), "_c19tag"):
+        _PLAIN_KEY[(type(_o), repr(_o))] = _i
+    else:
+        assert type(_o)._c19tag == _i, (_i, type(_o))
+
+
+def otok(i):
+    return f"o{OTHERS[i][1]}.{i}"
+
+
+def tok(v):
+    """canonical token of a Python object found in a record"""
+    if v is None:
+        return "N"
+    if v is True:
+        return "T"
+    if v is False:
+        return "F"
+    if type(v) is int:
+        return f"i{v}"
+    if type(v) is str:
+        return "s" + (v.encode("utf-8", "surrogatepass").hex() or "-")
+    tag = getattr(type(v), "_c19tag", None)
+    if tag is None:
+        tag = _PLAIN_KEY.get((type(v), repr(v)))
+    if tag is None:
+        return "?" + type(v).__name__
+    return otok(tag)
+
+
+def val(t):
+    if t == "N":
+        return None
+    if t == "T":
+        return True
+    if t == "F":
+        return False
+    if t[0] == "i":
+        return int(t[1:])
+    if t[0] == "s":
+        return "" if t == "s-" else bytes.fromhex(t[1:]).decode("utf-8")
+    if t[0] == "o":
+        return OTHERS[int(t.split(".")[1])][0]()
+    raise ValueError(t)
+
+
+_PLAIN = re.compile(r"[A-Za-z0-9_]+\Z")
+
+
+def ntok(name):
+    return name if _PLAIN.match(name) else "%" + (name.encode("utf-8").hex() or "-")
+
+
+def nval(t):
+    if t.startswith("%"):
+        return "" if t == "%-" else bytes.fromhex(t[1:]).decode("utf-8")
+    return t
+
+
+def sval(s):
+    return "s" + (s.encode().hex() or "-")
+
+
+# ---------------------------------------------------------------------------------------------------------------
+# running a line on the real code
+# ---------------------------------------------------------------------------------------------------------------
+
+COPIES = {
+    "@copy": copy.copy,
+    "@deepcopy": copy.deepcopy,
+    "@pickle": lambda o: pickle.loads(pickle.dumps(o)),
+    "@pickle2": lambda o: pickle.loads(pickle.dumps(o, protocol=2)),
+    "@replace": lambda o: dataclasses.replace(o),
+}
+
+
+class Ctx:
+    """the record under test plus the library-side handles of its route"""
+
+    def __init__(self, rec, lib_assign=None, describe=""):
+        self.rec = rec
+        self.lib_assign = lib_assign        # callable(name, value) making the LIBRARY assign en / div of this record
+        self.describe = describe
+
+
+def _others_chan(j, n):
+    """filler channels around the one under test (ids distinct from j)"""
+    dev = _dev()
+    return [dev.DeviceChannel(100 + k, 2 + k, 1, f"f{k}", en=bool(k & 1), div=k) for k in range(n) if k != j]
+
+
+def build(kind, route, cv):
+    """construct the real record through `route` from the constructor values cv"""
+    dev = _dev()
+    if kind == "chan":
+        chan, ty, vdim, name, en, div, mlen = cv
+        if route == "direct":
+            return Ctx(dev.DDeviceChannelData(chan, ty, vdim, name, en, div, mlen), None, "DDeviceChannelData(...)")
+        if route == "devchan":
+            return Ctx(dev.DeviceChannel(chan, ty, vdim, name, en, div, mlen).data, None, "DeviceChannel(...).data")
+        if route == "device":
+            j = chan % 3
+            n = j + 1 + (chan % 2)
+            chans = _others_chan(j, n)
+            chans.insert(j, dev.DeviceChannel(chan, ty, vdim, name, en, div, mlen))
+            d = dev.Device(n, 3, 0, chans)
+
+            def lib(nm, v, d=d, j=j):
+                if nm == "en":
+                    cur = d.channels_en
+                    cur[j] = v
+                    d.en_channels_update(cur)
+                elif nm == "div":
+                    cur = d.channels_div
+                    cur[j] = v
+                    d.div_channels_update(cur)
+                else:
+                    raise ValueError(nm)
+            return Ctx(d.channel_get(j).data, lib, f"Device({n}, 3, 0, [...]).channel_get({j}).data")
+        if route == "decoded":
+            import struct
+            from nxslib.proto.parse import Parser
+            from nxslib.proto.iframe import DParseFrame, EParseId
+            nb = name.encode("utf-8")
+            payload = struct.pack(f"BBBBB{len(nb)}s", int(en), ty, vdim, div, mlen, nb)
+            ch = Parser().frame_chinfo_decode(DParseFrame(EParseId.CHINFO, payload), chan)
+            return Ctx(ch.data, None, "Parser().frame_chinfo_decode(frame, chan).data")
+    else:
+        chmax, flags, rxp = cv
+        if route == "direct":
+            return Ctx(dev.DDeviceData(chmax, flags, rxp), None, "DDeviceData(...)")
+        if route == "device":
+            chans = _others_chan(-1, chmax)
+            return Ctx(dev.Device(chmax, flags, rxp, chans).data, None, f"Device({chmax}, {flags}, …).data")
+    raise ValueError(f"route {kind}/{route}")
+
+
+def run_steps(ctx, steps, obs):
+    """run the history; obs gets (step token, name, value, exception | None, record, items of its __dict__)"""
+    for st in steps:
+        o = ctx.rec
+        if st.startswith("@"):
+            exc = None
+            try:
+                ctx.rec = COPIES[st](o)
+                ctx.lib_assign = None
+            except Exception as e:  # a copy that cannot be made is reported like any other exception
+                exc = e
+            obs.append((st, None, None, exc, ctx.rec, list(ctx.rec.__dict__.items())))
+            continue
+        lib = st.startswith("!")
+        nm, vt = (st[1:] if lib else st).split("=")
+        nm = nval(nm)
+        v = getattr(o, nm, None) if vt == "cur" else val(vt)
+        exc = None
+        try:
+            if lib and ctx.lib_assign is not None:
+                ctx.lib_assign(nm, v)
+            else:
+                setattr(o, nm, v)
+        except Exception as e:
+            exc = e
+        obs.append((st, nm, v, exc, o, list(o.__dict__.items())))
+
+
+def execute(line):
+    """-> (kind, route, ctor values, construction exception | None, observations).  observations[0] is the
+    constructed record (step token None)."""
+    t = line.split(" ")
+    assert t[0] == "rec" and t[1] == "seq", line
+    kind, route = t[2], t[3]
+    cv = [val(x) for x in t[4].split(",")]
+    steps = [] if t[5] == "-" else t[5].split(";")
+    obs = []
+    if route == "session":
+        return kind, route, cv, *_session(kind, cv, steps, obs)
+    try:
+        ctx = build(kind, route, cv)
+    except Exception as e:
+        return kind, route, cv, e, obs
+    obs.append((None, None, None, None, ctx.rec, list(ctx.rec.__dict__.items())))
+    run_steps(ctx, steps, obs)
+    return kind, route, cv, None, obs
+
+
+def _session(kind, cv, steps, obs):
+    """the record an application gets from a connected NxscopeHandler (reference device, virtual time)"""
+    import vsim
+    import refdev
+
+    if kind == "chan":
+        chan, ty, vdim, name, en, div, mlen = cv
+        j, n, flags, rxp = chan, chan + 1 + (chan % 2), 3, 0
+        me = dict(en=en, type=ty, vdim=vdim, div=div, mlen=mlen, name=name)
+    else:
+        n, flags, rxp = cv
+        j, me = None, None
+    chans = [dict(en=bool(k & 1), type=2 + k, vdim=1, div=k % 3, mlen=0, name=f"f{k}") for k in range(n)]
+    if me is not None:
+        chans[j] = me
+
+    def scenario(sim):
+        from nxslib.nxscope import NxscopeHandler
+        from nxslib.proto.parse import Parser
+        dev = refdev.RefDevice(chans, flags=flags, rxpadding=rxp)
+        link = refdev.make_link(sim, dev)
+        nx = NxscopeHandler(link, Parser())
+        nx.connect()
+        try:
+            if kind == "chan":
+                def lib(nm, v):
+                    if nm == "en":
+                        (nx.ch_enable if v else nx.ch_disable)(j)
+                    elif nm == "div":
+                        nx.ch_divider(j, v)
+                    else:
+                        raise ValueError(nm)
+                    nx.channels_write()
+                ctx = Ctx(nx.dev_channel_get(j).data, lib)
+                assert nx.dev.channel_get(j).data is ctx.rec and nx._comm.dev.channel_get(j).data is ctx.rec
+            else:
+                ctx = Ctx(nx.dev.data, None)
+                assert nx._comm.dev.data is ctx.rec
+            obs.append((None, None, None, None, ctx.rec, list(ctx.rec.__dict__.items())))
+            run_steps(ctx, steps, obs)
+        finally:
+            nx.disconnect()
+        return None
+
+    r, sim = vsim.run_sim(scenario, seed=0, time_limit=3000.0, real_limit=30.0)
+    if isinstance(r, BaseException):
+        return r, obs
+    return None, obs
+
+
+OTHERS_SRC = ["1.0", "0.0", "1.5", "3.0", "float('nan')", "float('inf')", "-0.0", "b''", "b'ab'", "bytearray(b'x')", "()", "(1, 2)",
+              "[]", "[1]", "{}", "{'en': 1}", "frozenset()", "(1+0j)", "Fraction(1, 1)", "EqTrue()", "EqRaises()", "BoolRaises()",
+              "IntSub(1)", "StrSub('en')", "Falsy()", "int", "range(3)", "7.0", "255.0", "2.0", "18.0"]
+assert len(OTHERS_SRC) == len(OTHERS)
+
+
+def pyval(t):
+    """a value token as Python source (EqTrue … Falsy: the hostile classes of harness/props/C19.py)"""
+    return OTHERS_SRC[int(t.split(".")[1])] if t[0] == "o" else repr(val(t))
+
+
+def pyrepro(line, upto=None):
+    """the case as a Python snippet against nxslib (what the replay does), steps 1..upto"""
+    t = line.split(" ")
+    kind, route, cv = t[2], t[3], [pyval(x) for x in t[4].split(",")]
+    steps = [] if t[5] == "-" else t[5].split(";")
+    a = ", ".join(cv)
+    if kind == "chan":
+        j = val(t[4].split(",")[0])
+        how = {"direct": f"rec = DDeviceChannelData({a})",
+               "devchan": f"rec = DeviceChannel({a}).data",
+               "device": f"dev = Device(n, 3, 0, [... DeviceChannel({a}) at index j ...]); rec = dev.channel_get(j).data   # j = chan % 3",
+               "decoded": f"rec = Parser().frame_chinfo_decode(DParseFrame(EParseId.CHINFO, struct.pack('BBBBB<n>s', en, _type, vdim, div, "
+                          f"mlen, name)), chan).data   # (chan, _type, vdim, name, en, div, mlen) = ({a})",
+               "session": f"nx = NxscopeHandler(<link to a device whose channel {j} reports (chan, _type, vdim, name, en, div, mlen) = ({a})>, "
+                          f"Parser()); nx.connect(); rec = nx.dev_channel_get({j}).data"}[route]
+    else:
+        how = {"direct": f"rec = DDeviceData({a})", "device": f"rec = Device({a}, [<chmax channels>]).data",
+               "session": f"nx = NxscopeHandler(<link to a device reporting (chmax, flags, rxpadding) = ({a})>, Parser()); nx.connect(); "
+                          "rec = nx.dev.data"}[route]
+    out = [how]
+    for st in steps[:upto]:
+        if st.startswith("@"):
+            out.append({"@copy": "rec = copy.copy(rec)", "@deepcopy": "rec = copy.deepcopy(rec)", "@pickle": "rec = pickle.loads(pickle.dumps(rec))",
+                        "@pickle2": "rec = pickle.loads(pickle.dumps(rec, protocol=2))", "@replace": "rec = dataclasses.replace(rec)"}[st])
+            continue
+        lib = st.startswith("!")
+        nm, vt = (st[1:] if lib else st).split("=")
+        nm = nval(nm)
+        v = (f"rec.{nm}" if nm.isidentifier() else f"getattr(rec, {nm!r}, None)") if vt == "cur" else pyval(vt)
+        if lib and route == "device":
+            out.append(f"dev.{'en' if nm == 'en' else 'div'}_channels_update([... {v} at index j ...])   # the library assigns rec.{nm}")
+        elif lib and route == "session":
+            out.append((f"nx.ch_{'enable' if val(vt) else 'disable'}({j})" if nm == "en" else f"nx.ch_divider({j}, {v})") +
+                       f"; nx.channels_write()   # the library assigns rec.{nm}")
+        else:
+            out.append(f"rec.{nm} = {v}" if nm.isidentifier() else f"setattr(rec, {nm!r}, {v})")
+    return out
+
+
+def dump(items):
+    return ",".join(f"{ntok(k)}={tok(v)}" for k, v in items)
+
+
+ROUTE_TEXT = {"direct": "built directly", "devchan": "DeviceChannel(...).data", "device": "handed out by a Device",
+              "decoded": "decoded by Parser.frame_chinfo_decode", "session": "handed out by a connected NxscopeHandler"}
 
 
 class C19(Prop):
     id = "C19"
     lean_module = "NxsModel.Props.C19"
-    rule = ("exhaustive on the real dataclasses: 256 type bytes x every field (dataclasses.fields incl. _initdone, "
-            "plus two non-field names) x assigned values {0,1,9}; device record for flags 0..3,255 x every field; "
-            "constructed records dumped for all 256 type bytes; distinct = distinct (op,input); non-trivial = all")
+    rule = ("one line = one record + a history; whole __dict__ compared after construction and after every step. "
+            "chan-single: type bytes (thorough all 256) x every name (dataclasses.fields incl. _initdone, non-field and "
+            "odd names) x values rotating through None/bool/ints up to 2**64/str/floats/bytes/containers/hostile "
+            "__eq__/__hash__/__bool__ objects/the current value; chan-sweep: every field written back with its "
+            "current value, with None, with an equal-but-not-identical value, per type byte; histories: random "
+            "assignment sequences (library en/div updates, copies, attempts to clear the marker) on records built "
+            "directly, through DeviceChannel/Device, decoded from a chinfo frame, copied/pickled, or handed out by a "
+            "connected NxscopeHandler; constructor arguments varied over the same value domain; "
+            "distinct = distinct (line, output); non-trivial = all")
+
+    # ---- generation -------------------------------------------------------------------------------------------
+    INTS = ["i0", "i1", "i9", "i-1", "i-128", "i255", "i256", "i7", "i3", "i18446744073709551616",
+            "i-9223372036854775809", "i2"]
+    STRS = ["s-", sval("abc"), sval("en"), sval("div"), sval("é中"), sval("x" * 70), sval("0")]
+
+    def pool(self):
+        return ["N", "T", "F"] + self.INTS + self.STRS + [otok(i) for i in range(len(OTHERS))]
+
+    def names(self, kind):
+        dev = _dev()
+        cls = dev.DDeviceChannelData if kind == "chan" else dev.DDeviceData
+        fields = [f.name for f in dataclasses.fields(cls)]
+        odd = ["bogus", "__dict__", "__class__", "__setattr__", "__post_init__", "__eq__", "EN", "Div", "en_", "_en", "div2",
+               "data", "_data", "chan_", "%656e20", "%20656e", "%656e00", "%c3a96e", "%-", "%6469762e", "enable",
+               "divider", "type", "__initdone", "_initdone_"]
+        return fields, odd
+
+    def ctor(self, rng, kind, route, ty=None, wild=True):
+        """constructor value tokens acceptable for the route"""
+        P = self.pool()
+        if kind == "chan":
+            ty = rng.randrange(256) if ty is None else ty
+            if route == "direct":
+                pick = (lambda: rng.choice(P)) if wild else (lambda: rng.choice(["i0", "i1", "i7", "i3", "i255", "i2"]))
+                return [pick(), f"i{ty}", pick(), pick() if wild else sval(rng.choice(["ch", "", "név"])),
+                        pick() if wild else rng.choice("TF"), pick(), pick()]
+            if route in ("devchan", "device"):
+                chan = rng.choice(["i0", "i1", "i2", "i5", "i7", "i63", "i255"])
+                pick = (lambda: rng.choice(P)) if (wild and route == "devchan") else (lambda: rng.choice(self.INTS[:9]))
+                return [chan, f"i{ty}", pick(), sval(rng.choice(["ch", "", "név", "a b"])), rng.choice("TF"), pick(), pick()]
+            if route == "decoded":
+                b = lambda: f"i{rng.choice([0, 1, 2, 7, 18, 127, 128, 255, rng.randrange(256)])}"  # noqa: E731
+                chan = rng.choice(P) if wild else b()
+                return [chan, f"i{ty}", b(), sval(rng.choice(["ch", "", "név", "a b", "x" * 40])), rng.choice("TF"), b(), b()]
+            if route == "session":
+                b = lambda: f"i{rng.choice([0, 1, 2, 7, 18, 127, 128, 255, rng.randrange(256)])}"  # noqa: E731
+                return [f"i{rng.randrange(3)}", f"i{ty}", b(), sval(rng.choice(["ch", "", "név", "a b"])), rng.choice("TF"), b(), b()]
+        else:
+            if route == "direct":
+                fl = rng.choice([0, 1, 2, 3, 255, 7, 128, 4, 2 ** 64 + 3, rng.randrange(256), rng.randrange(1 << 20)])
+                pick = (lambda: rng.choice(P)) if wild else (lambda: rng.choice(["i0", "i1", "i7", "i3", "i255", "i2"]))
+                return [pick(), f"i{fl}", pick()]
+            if route == "device":
+                fl = rng.choice([0, 1, 2, 3, 255, 7, 128, rng.randrange(256)])
+                return [f"i{rng.randrange(4)}", f"i{fl}", rng.choice(P)]
+            if route == "session":
+                return [f"i{rng.randrange(1, 4)}", f"i{rng.choice([0, 1, 2, 3])}", rng.choice(["i0", "i0", "i4"])]
+        raise ValueError((kind, route))
+
+    def history(self, rng, kind, route, n):
+        P = self.pool()
+        fields, odd = self.names(kind)
+        allowed = ["en", "div"] if kind == "chan" else []
+        steps = []
+        for _ in range(n):
+            r = rng.random()
+            if r < 0.30 and allowed:
+                nm = rng.choice(allowed)
+                if route == "session":
+                    # on a live handler en / div are the library's: channels_write() re-assigns its own view of BOTH
+                    # to every record, so application-level en / div assignments come last (see cases)
+                    steps.append(f"!{nm}=" + (rng.choice("TF") if nm == "en" else f"i{rng.randrange(256)}"))
+                    continue
+                if route == "device" and rng.random() < 0.35:
+                    steps.append(f"!{nm}={rng.choice(P)}")
+                    continue
+            elif r < 0.62:
+                nm = rng.choice([f for f in fields if f not in allowed])
+            elif r < 0.74:
+                nm = "_initdone"
+            elif r < 0.84:
+                nm = rng.choice(odd)
+            elif r < 0.92 and route != "session":
+                steps.append(rng.choice(list(COPIES)))
+                continue
+            else:
+                nm = rng.choice([f for f in fields if not (route == "session" and f in allowed)])
+            v = rng.choice(P + ["cur", "cur", "N", "F", "i0"]) if nm != "_initdone" else \
+                rng.choice(["F", "i0", "N", "s-", "o0.1", "o0.24", "T", "cur", "o0.12"])
+            steps.append(f"{nm}={v}")
+        # a history always ends by trying an identifying field (so that the oracle sees an unsealed record)
+        ident = [f for f in fields if f not in allowed and f != "_initdone"]
+        steps.append(f"{rng.choice(ident)}={rng.choice(P)}")
+        return ";".join(steps)
+
+    def line(self, kind, route, cv, steps):
+        return f"rec seq {kind} {route} {','.join(cv)} {steps or '-'}"
 
     def cases(self, rng, tier):
-        dev = _dev()
-        cf = [f.name for f in dataclasses.fields(dev.DDeviceChannelData)] + ["bogus", "__dict__x"]
-        df = [f.name for f in dataclasses.fields(dev.DDeviceData)] + ["bogus"]
-        tys = range(256) if tier == "thorough" else list(range(0, 40)) + [64, 96, 127, 128, 138, 160, 224, 255]
+        thorough = tier == "thorough"
+        P = self.pool()
+        cfields, codd = self.names("chan")
+        dfields, dodd = self.names("dev")
+        tys = list(range(256)) if thorough else sorted(set(list(range(0, 34)) + [50, 64, 82, 96, 114, 127, 128, 138, 146, 147,
+                                                                                  160, 179, 210, 224, 243, 255]
+                                                           + [rng.randrange(256) for _ in range(6)]))
+        # 1 single assignments on fresh records: every type byte x every name, values rotating through the pool
+        k = rng.randrange(len(P))
         for ty in tys:
-            yield f"rec chanall {ty}", "chan-dump"
-            for f in cf:
-                for v in (0, 1, 9):
-                    yield f"rec chan {ty} {f} {v}", "chan-set"
-        for fl in (0, 1, 2, 3, 255, 7, 128):
-            yield f"rec devall {fl}", "dev-dump"
-            for f in df:
-                for v in (0, 1, 9):
-                    yield f"rec dev {fl} {f} {v}", "dev-set"
-
-    def _chan(self, ty):
-        return _dev().DDeviceChannelData(7, ty, 7, 7, 7, 7, 7)
-
-    def _devd(self, fl):
-        return _dev().DDeviceData(7, fl, 7)
-
-    def impl(self, line):
-        t = line.split(" ")
-        if t[1] in ("chanall", "devall"):
-            o = self._chan(int(t[2])) if t[1] == "chanall" else self._devd(int(t[2]))
-            return "ok " + " ".join(f"{k}={b2i(v)}" for k, v in o.__dict__.items())
-        o = self._chan(int(t[2])) if t[1] == "chan" else self._devd(int(t[2]))
-        f, v = t[3], int(t[4])
-        before = o.__dict__.get(f, "absent")
-        try:
-            setattr(o, f, v)
-        except Exception as e:
-            after = o.__dict__.get(f, "absent")
-            return f"err {exc_name(e)} {b2i(after)}"
-        return f"ok {b2i(o.__dict__.get(f, 'absent'))}"
-
-    def oracle(self, line, impl_out=None):
-        t = line.split(" ")
-        dev = _dev()
-        if t[1] in ("chan", "dev"):
-            o = self._chan(int(t[2])) if t[1] == "chan" else self._devd(int(t[2]))
-            f, v = t[3], int(t[4])
-            snap = dict(o.__dict__)
-            try:
-                setattr(o, f, v)
-                raised = False
-            except TypeError:
-                raised = True
-            except Exception as e:
-                return {"key": "wrong-exception", "what": f"assigning {f} raised {type(e).__name__}", "expected": "TypeError", "observed": type(e).__name__}
-            allowed = t[1] == "chan" and f in ("en", "div")
-            if allowed:
-                if raised or getattr(o, f) != v or {k: x for k, x in o.__dict__.items() if k != f} != {k: x for k, x in snap.items() if k != f}:
-                    return {"key": "en-div-assignable", "what": f"assigning {f} must work and change nothing else", "expected": "ok", "observed": "raised" if raised else "changed"}
+            base = self.ctor(rng, "chan", "direct", ty, wild=False)
+            yield self.line("chan", "direct", base, ""), "chan-dump"
+            for nm in cfields + (codd if thorough or ty % 4 == 0 else codd[:3]):
+                for _ in range(2 if thorough else 1):
+                    k += 1
+                    yield self.line("chan", "direct", base, f"{nm}={P[k % len(P)]}"), "chan-single"
+            # 2 sweeps: every field written back with its current value / None / an equal-but-not-identical value
+            yield self.line("chan", "direct", base, ";".join(f"{nm}=cur" for nm in cfields)), "chan-sweep-cur"
+            yield self.line("chan", rng.choice(["direct", "devchan", "device"]), self.ctor(rng, "chan", "device", ty, wild=False),
+                            ";".join(f"{nm}=N" for nm in cfields)), "chan-sweep-none"
+            eqv = {"i0": ["F", "o0.1", "o0.6"], "i1": ["T", "o1.0", "o1.22", "o1.17", "o1.18"], "i7": ["o1.27"], "i3": ["o1.3"],
+                   "i255": ["o1.28"], "i2": ["o1.29"], "T": ["i1", "o1.0"], "F": ["i0", "o0.1"], "s-": ["o0.7"]}
+            st = []
+            for nm, cur in zip(["chan", "vdim", "name", "en", "div", "mlen"], [base[0]] + base[2:]):
+                st.append(f"{nm}={rng.choice(eqv.get(cur, ['o1.19']))}")
+            d = ty & 0x1F
+            st += [f"_type={rng.choice(['o1.19', 'o1.22', 'cur'])}", f"dtype={'o1.30' if d == 18 else 'o1.19'}",
+                   f"critical={'i1' if ty & 0x80 else 'i0'}", f"is_valid={'i1' if d else 'i0'}",
+                   f"is_numerical={'o1.0' if d not in (0, 1, 18, 19) else 'o0.1'}", "type_res=o1.19", "_initdone=i1", "_initdone=o1.19"]
+            yield self.line("chan", "direct", base, ";".join(st)), "chan-sweep-equal"
+        # 3 device record
+        for fl in [0, 1, 2, 3, 255, 7, 128, 4, 2 ** 64 + 3] + [rng.randrange(256) for _ in range(16 if thorough else 3)]:
+            for route in ("direct", "device"):
+                base = [f"i{rng.randrange(4)}", f"i{fl}", rng.choice(["i0", "i7", "i3", "i1"])]
+                yield self.line("dev", route, base, ""), "dev-dump"
+                for nm in dfields + (dodd if thorough else dodd[:4]):
+                    k += 1
+                    yield self.line("dev", route, base, f"{nm}={P[k % len(P)]}"), "dev-single"
+                yield self.line("dev", route, base, ";".join(f"{nm}=cur" for nm in dfields)), "dev-sweep-cur"
+                yield self.line("dev", route, base, ";".join(f"{nm}=N" for nm in dfields)), "dev-sweep-none"
+                eq = {"chmax": {"i0": "o0.1", "i1": "o1.0", "i2": "o1.29", "i3": "o1.3"}[base[0]],
+                      "flags": "o1.3" if fl == 3 else "o1.19",
+                      "rxpadding": {"i0": "F", "i7": "o1.27", "i3": "o1.3", "i1": "T"}[base[2]],
+                      "div_supported": "i1" if fl & 1 else "i0", "ack_supported": "o1.0" if fl & 2 else "o0.1",
+                      "_initdone": "i1"}
+                yield self.line("dev", route, base, ";".join(f"{nm}={v}" for nm, v in eq.items()) + ";_initdone=F;chmax=i99"), "dev-sweep-equal"
+        # 4 histories on records from every route, constructor arguments over the whole value domain
+        nh = 1500 if thorough else 500
+        for i in range(nh):
+            kind = "chan" if rng.random() < 0.7 else "dev"
+            route = rng.choice(["direct", "direct", "devchan", "device", "decoded"] if kind == "chan" else ["direct", "device"])
+            cv = self.ctor(rng, kind, route, wild=rng.random() < 0.6)
+            yield self.line(kind, route, cv, self.history(rng, kind, route, rng.randrange(1, 10))), f"history-{kind}-{route}"
+        # 5 copies first, then assignments
+        for how in COPIES:
+            for kind, route in (("chan", "direct"), ("chan", "device"), ("chan", "decoded"), ("dev", "direct"), ("dev", "device")):
+                cv = self.ctor(rng, kind, route, wild=False)
+                ident = "chan=i5;_type=i1;mlen=N" if kind == "chan" else "chmax=i5;flags=i0;ack_supported=F"
+                yield self.line(kind, route, cv, f"{how};{ident};_initdone=F;{ident}"), "copy-first"
+                if kind == "chan":
+                    yield self.line(kind, route, cv, f"en=T;div=i4;{how};{ident};en=F;{how};{ident}"), "copy-after-en-div"
+        # 6 records handed out by a connected handler (virtual time, reference device), library en/div updates between
+        ns = 40 if thorough else 12
+        for i in range(ns):
+            kind = "chan" if i % 4 != 3 else "dev"
+            cv = self.ctor(rng, kind, "session")
+            if kind == "chan":
+                st = rng.choice(["!en=T;chan=i9", "chan=N;!en=F;!div=i5;vdim=cur", "!div=i3;_initdone=F;name=s-;_type=i0"]) + ";" + \
+                    self.history(rng, kind, "session", rng.randrange(1, 6)) + \
+                    rng.choice(["", ";en=N;chan=i1", ";div=o1.19;en=cur;_initdone=F;mlen=i0"])
             else:
-                if not raised or dict(o.__dict__) != snap:
-                    return {"key": "readonly", "what": f"assigning {t[1]}.{f} must raise and leave the record unchanged",
-                            "expected": "TypeError, unchanged", "observed": "no exception" if not raised else "changed"}
-        elif t[1] == "chanall":
-            ty = int(t[2])
-            o = self._chan(ty)
-            if (o.dtype, o.critical, o.type_res) != (ty & 0x1F, bool(ty & 0x80), ty & 0x60):
-                return {"key": "derived", "what": "derived attributes of the type byte", "expected": str((ty & 0x1F, bool(ty & 0x80), ty & 0x60)),
-                        "observed": str((o.dtype, o.critical, o.type_res))}
+                st = self.history(rng, kind, "session", rng.randrange(2, 6))
+            yield self.line(kind, "session", cv, st), f"session-{kind}"
+
+    def search_cases(self, rng):
+        out = []
+        for i in range(400):
+            kind = "chan" if rng.random() < 0.7 else "dev"
+            route = rng.choice(["direct", "devchan", "device", "decoded"] if kind == "chan" else ["direct", "device"])
+            cv = self.ctor(rng, kind, route, wild=rng.random() < 0.5)
+            out.append((self.line(kind, route, cv, self.history(rng, kind, route, rng.randrange(1, 8))), "search"))
+        return out
+
+    # ---- the real code ---------------------------------------------------------------------------------------
+    def impl(self, line):
+        kind, route, cv, cexc, obs = execute(line)
+        if cexc is not None and not obs:
+            return f"err-init {exc_name(cexc)}"
+        out = [dump(obs[0][5])]
+        for st, nm, v, exc, o, items in obs[1:]:
+            out.append(("ok:" if exc is None else f"err:{exc_name(exc)}:") + dump(items))
+        if cexc is not None:
+            out.append(f"session-exc:{exc_name(cexc)}")
+        return "ok " + ";".join(out)
+
+    # ---- the property ----------------------------------------------------------------------------------------
+    def oracle(self, line, impl_out=None):
+        v = self._judge(line)
+        if v:
+            m = re.search(r"step (\d+) of history", v.get("what", ""))
+            v["python"] = pyrepro(line, int(m.group(1)) if m else None)
+            v["values"] = "N None, T/F bool, i<n> int, s<hex> str (UTF-8), o<truthy>.<k> = k-th entry of OTHERS in harness/props/C19.py"
+        return v
+
+    def _judge(self, line):
+        kind, route, cv, cexc, obs = execute(line)
+        where = f"{'channel' if kind == 'chan' else 'device'} description {ROUTE_TEXT.get(route, route)} from ({line.split(' ')[4]})"
+        if cexc is not None:
+            return {"key": "construct", "what": f"{where}: construction / session raised {type(cexc).__name__}: {cexc}",
+                    "expected": "a record", "observed": type(cexc).__name__}
+        snap0 = dict(obs[0][5])     # the record as constructed (obs[0][4] is the live object: the history has run on it)
+        if kind == "chan":
+            ty = cv[1]
+            want = {"dtype": ty & 0x1F, "critical": bool(ty & 0x80), "type_res": ty & 0x60, "is_valid": (ty & 0x1F) != 0,
+                    "is_numerical": (ty & 0x1F) not in (0, 1, 18, 19), "_type": ty}
+        else:
+            fl = cv[1]
+            want = {"div_supported": bool(fl & 1), "ack_supported": bool(fl & 2), "flags": fl}
+        got = {k: snap0.get(k, "absent") for k in want}
+        if any(type(got[k]) is not type(want[k]) or got[k] != want[k] for k in want):
+            return {"key": "derived", "what": f"{where}: derived attributes of the type byte / flags",
+                    "expected": str(want), "observed": str(got)}
+        if route == "direct":
+            names = ["chan", "_type", "vdim", "name", "en", "div", "mlen"] if kind == "chan" else ["chmax", "flags", "rxpadding"]
+            for nm, v in zip(names, cv):
+                g = snap0.get(nm, "absent")
+                if tok(g) != tok(v):
+                    return {"key": "fields", "what": f"{where}: attribute {nm} is not the constructor argument",
+                            "expected": tok(v), "observed": tok(g)}
+        prev = obs[0][5]
+        hist = []
+        for idx, (st, nm, v, exc, o, items) in enumerate(obs[1:], 1):
+            hist.append(st)
+            if nm is None:
+                if exc is not None:
+                    return {"key": "copy", "what": f"{where}: {st[1:]} of the record raised {type(exc).__name__}", "expected": "a copy",
+                            "observed": str(exc)[:80]}
+                prev = items        # the copy is judged by what the following assignments do to it
+                continue
+            at = f"{where}, step {idx} of history [{';'.join(hist)}]: rec.{nm} = {tok(v)}" + (" (assigned by the library)" if st[0] == "!" else "")
+            allowed = kind == "chan" and nm in ("en", "div") and type(nm) is str
+            same_keys = [k for k, _ in items] == [k for k, _ in prev]
+            # en and div are the library's: when IT assigns one of them (channels_write on a live handler re-assigns its own
+            # view of both to every record) the other may be re-assigned too; an application's assignment touches nothing else
+            mine = ("en", "div") if st[0] == "!" and allowed else (nm,)
+            changed = [k for (k, a), (k2, b) in zip(items, prev) if k not in mine and a is not b] if same_keys else ["<attribute set>"]
+            if allowed:
+                if exc is not None:
+                    return {"key": "en-div-assignable", "what": f"{at} raised {type(exc).__name__}", "expected": "assignment goes through",
+                            "observed": f"{type(exc).__name__}: {exc}"}
+                stored = dict(items).get(nm, "absent")
+                if stored is not v:
+                    return {"key": "en-div-assignable", "what": f"{at} did not store the value", "expected": tok(v), "observed": tok(stored)}
+                if changed:
+                    return {"key": "en-div-assignable", "what": f"{at} changed other attributes: {changed}",
+                            "expected": dump(prev), "observed": dump(items)}
+            else:
+                if exc is None:
+                    now = dict(items).get(nm, "absent")
+                    return {"key": "readonly", "what": f"{at} did not raise; the attribute is now {tok(now)}",
+                            "expected": f"TypeError, {nm} stays {tok(dict(prev).get(nm, 'absent')) if nm in dict(prev) else 'absent'}",
+                            "observed": "no exception; " + dump(items)}
+                if not isinstance(exc, TypeError):
+                    return {"key": "wrong-exception", "what": f"{at} raised {type(exc).__name__}: {exc}", "expected": "TypeError",
+                            "observed": type(exc).__name__}
+                if not same_keys or changed or any(a is not b for (_, a), (_, b) in zip(items, prev)):
+                    return {"key": "readonly", "what": f"{at} raised TypeError but the record changed: "
+                            f"{changed or [k for (k, a), (_, b) in zip(items, prev) if a is not b]}",
+                            "expected": dump(prev), "observed": dump(items)}
+            prev = items
         return None
 
 
